@@ -942,10 +942,19 @@ def run_deny_sweep(case):
 
 def gen(item, rng, tier):
     if item['k'] == 'deny-sweep':
-        return gen_deny_sweep(item, rng, tier)
+        return _with_bystander(gen_deny_sweep(item, rng, tier), rng)
     if item['k'] == 'witness-pushw':
         return witness_pushw_case()
-    return {'translate': gen_translate, 'deny': gen_deny, 'align': gen_align, 'revoke': gen_revoke}[item['k']](rng)
+    if item['k'] == 'translate':
+        return gen_translate(rng)
+    return _with_bystander({'deny': gen_deny, 'align': gen_align, 'revoke': gen_revoke}[item['k']](rng), rng)
+
+
+def _with_bystander(case, rng):
+    if rng.random() < 0.15 and case.get('cores'):
+        core = case['cores'][0]
+        core['bystander'] = dict(core.get('config') or {}, number_of_mpu_regions=rng.choice([4, 4, 1, 8, 16]))
+    return case
 
 
 def run(case):
